@@ -25,7 +25,8 @@
 (* PickleA / RebuildA are evaluated on every transition (InvLaws) and, in  *)
 (* the small configurations, for every map in every state (Inv...All).     *)
 (* The harness replays behaviours and the state graph of this module on    *)
-(* real objects (vf/expr_replay.py).                                       *)
+(* real objects (vf/expr_pool.py for pool sums, vf/expr_cls.py for the     *)
+(* expression classes).                                                    *)
 (***************************************************************************)
 EXTENDS ExprAlgebra
 
